@@ -312,6 +312,25 @@ def contains (d : Disk) (kind : Kind) (hash : String) (size : Int) (pc : Bool ×
           pc.1 && decide (pc.2 ≤ d.cfg.maxProxyBlobSize) && !isSizeMismatch size pc.2 then (d0, true, pc.2)
       else (d0, false, -1)
 
+/-- what the environment may do to the file of an indexed entry (`how`): 0 = unlink it, 1 = change
+    its first byte (the magic number of a compressed blob), otherwise drop its last byte -/
+def mangle (how : Nat) (b : Bytes) : Bytes :=
+  if how == 1 then
+    match b with
+    | x :: r => ((x + 1) % 256) :: r
+    | [] => []
+  else b.dropLast
+
+/-- an environment action, not an operation of the cache: the file of the entry indexed under
+    (kind, hash) is damaged behind the cache's back -/
+def damage (d : Disk) (kind : Kind) (hash : String) (how : Nat) : Disk :=
+  match Lru.find? d.lru (lookupKey kind hash) with
+  | none => d
+  | some e =>
+    let path := elementPath e.key e.val
+    if how == 0 then { d with files := removeFile d.files path }
+    else { d with files := d.files.map (fun p => if p.1 == path then (p.1, mangle how p.2) else p) }
+
 /-- the background remover finishes its backlog: every queued file is unlinked -/
 def drain (d : Disk) : Disk :=
   { d with lru := drainAll d.lru,
